@@ -1,4 +1,5 @@
 import PyaisVerif.Model.Filter
+import PyaisVerif.Generated.Funcs
 /-!
 # C19 — a filter chain passes exactly the messages that satisfy every filter
 
@@ -72,6 +73,23 @@ theorem C19_grid (la0 lo0 la1 lo1 : Int) (m : Msg) :
   | none => rfl
   | some p => obtain ⟨a, b⟩ := p; simp [Bool.and_assoc]
 
+/-- **Tie 1 for the grid test.**  `Generated.isInGridFn` is the body of `filter.is_in_grid` as it is written
+in /repo now (rendered by `harness/translate_fn.py` on every run): it is the closed box, bounds included. -/
+theorem C19_src_grid (la lo la0 lo0 la1 lo1 : Int) :
+    Generated.isInGridFn la lo la0 lo0 la1 lo1 = decide (la0 ≤ la ∧ la ≤ la1 ∧ lo0 ≤ lo ∧ lo ≤ lo1) := by
+  simp [Generated.isInGridFn, Bool.and_assoc]
+
+/-- the grid filter of the model is the source's `is_in_grid` applied to the message's position -/
+theorem C19_source_grid (la0 lo0 la1 lo1 : Int) (m : Msg) :
+    (Filt.grid la0 lo0 la1 lo1).passes dist m =
+      (match m.pos with
+       | none => true
+       | some p => Generated.isInGridFn p.1 p.2 la0 lo0 la1 lo1) := by
+  rw [C19_grid]
+  cases m.pos with
+  | none => rfl
+  | some p => simp only [C19_src_grid]
+
 /-- the other filters -/
 theorem C19_none (attrs : List String) (m : Msg) :
     (Filt.noneF attrs).passes dist m = attrs.all fun a =>
@@ -101,6 +119,8 @@ example : (Filt.grid 0 0 1 1).passes (fun _ _ => 0) { cls := "MessageType1", fie
 #print axioms C19_mem
 #print axioms C19_distance
 #print axioms C19_grid
+#print axioms C19_src_grid
+#print axioms C19_source_grid
 #print axioms C19_none
 #print axioms C19_type
 #print axioms C19_total
